@@ -136,3 +136,15 @@ meta("C15",
      budget={"quick": 20, "thorough": 300},
      min_counts={"quick": {"multiplications": 8000, "invariant_evaluations": 4000, "configs": 30}},
      set_samples=["configs"])
+
+meta("C17",
+     rule="GFA2 graphs of 2-6 segments and named edges; (a) ordered groups generated as presentations of a known alternating walk: full, segments only (edges implied where exactly one fits), edges only (segments implied), mixed omissions, nested sub-paths referenced + or - ; captured_path/segments/edges must equal the walk; (b) deliberately broken lists (foreign segment, ambiguous parallel edges, non-adjacent segments) must raise; (c) unordered groups over segments, edges, paths and nested sets: induced segments/edges/set vs an independent closure; (d) multi-line U/O definitions in ALL arrival orders of the group lines (<=4 lines): items concatenated in arrival order, tags united; documents are shuffled; non-trivial = nested or abbreviated or reversed presentation, broken list, set, multi-line group",
+     budget={"quick": 20, "thorough": 300},
+     min_counts={"quick": {"captured_paths": 5000, "rejected_lists": 1000, "induced_sets": 3000, "multiline_orders": 3000, "item_kinds": 4}},
+     set_samples=["kinds", "item_kinds"])
+
+meta("C06",
+     rule="GFA1 graphs whose segments have a length and whose overlaps are specified, asymmetric CIGARs (I/D/P), every orientation pair, self-links, containments at offset 0 / inner / flush right, linear, circular and single-segment paths traversing links in either direction, named and unnamed edges, tags; GFA2 graphs from G1 with CIGAR or '*' alignments; whole-graph conversion in both directions (string and Gfa), line-level refusals, there-and-back; edges are compared in the E-line semantic normal form (the four spellings under sid swap => I<->D and orientation flip => reversed operations) computed by an independent model from CIGAR reference/query lengths and segment lengths; converted text must be VALID for the target grammar and accepted by Gfa(vlevel=3).validate(); bin/gfapy-convert sampled; non-trivial = graph with an alignment that is not its own swap/reverse",
+     budget={"quick": 25, "thorough": 360},
+     min_counts={"quick": {"conversions_1to2": 3000, "conversions_2to1": 2000, "edges_compared": 8000, "round_trips": 4000, "paths_compared": 500, "line_level_refusals": 500}},
+     assumptions=["containments whose container orientation is '-' (GFA1 does not say on which strand pos counts), dovetails spanning a whole segment, trace alignments and internal edges are outside the comparison (DESIGN 3.1)"])
